@@ -134,7 +134,7 @@ pub fn build_plan(property: &str, tier: &str, seed: u64, ctx: &Arc<ExecCtx>) -> 
             for (i, t) in d.into_iter().enumerate() {
                 // quick: a rotating third of the away-and-back pairs (all of them in thorough)
                 // (pairs of a regional variant and its parent are always run: they share files through include:)
-                let rotating = (t.origin.starts_with("directed away-and-back") || t.origin.starts_with("directed sparse away-and-back")) && !(t.origin.contains("en-gb->en->") || t.origin.contains(" en->en-gb->"));
+                let rotating = (t.origin.starts_with("directed away-and-back") || t.origin.starts_with("directed sparse away-and-back")) && !(t.origin.contains("en-gb->en->") || t.origin.contains(" en->en-gb->") || t.origin.contains("CheckRuleFiles=None"));
                 if !quick || !rotating || i % 3 == (seed as usize) % 3 || i + 1 == nd {
                     plan.units.push(Unit::Fixed(Box::new(t)));
                 }
